@@ -469,6 +469,8 @@ impl PreprocessorParser {
             final(context).macro_map@ == old(context).macro_map@,
             final(out).code@.len() >= old(out).code@.len(),
             final(out).code@.subrange(0, old(out).code@.len() as int) == old(out).code@,
+            // a diagnostic piggybacked on UnrecognizedToken (empty token text) is built by error! and carries its one message
+            r matches Err(ParseError::UnrecognizedToken { token, expected }) ==> (token.1.1@ == ""@ ==> expected@.len() >= 1),
     { unimplemented!() }
 }
 
